@@ -1,24 +1,27 @@
 (* Property C06 — DIMSE fragmentation: size bound, fragment flags, byte-exact content.
    Unbounded in the command-set bytes, the data-set bytes, the presentation context id and the
-   maximum PDU length m >= 7 (2^32-1 is just another m). *)
+   maximum PDU length m >= 7 (2^32-1 is just another m), or m = 0 (no limit). *)
 From PND Require Import Lib.Base Model.Dimse Proofs.DimseProofs.
 
-Theorem C06_fragmentation : forall (cmd data : bytes) (pc m : N), 7 <= m ->
+(* legal_max m: m = 0 (no maximum in force: the library fragments at eff_max 0 = 65536) or m >= 7;
+   eff_max m = m for m >= 7 *)
+Theorem C06_fragmentation : forall (cmd data : bytes) (pc m : N), legal_max m ->
   exists cs ds,
     dimse_encode cmd data pc m = Ok (cs ++ ds)          (* all command fragments, then all data fragments *)
-    /\ stream_ok pc m 1 3 cmd cs                          (* command stream: ctl 1 ... 1 3 *)
-    /\ stream_ok pc m 0 2 data ds.                        (* data stream:    ctl 0 ... 0 2, absent iff no data *)
+    /\ stream_ok pc (eff_max m) 1 3 cmd cs                (* command stream: ctl 1 ... 1 3 *)
+    /\ stream_ok pc (eff_max m) 0 2 data ds.              (* data stream:    ctl 0 ... 0 2, absent iff no data *)
 Proof.
   intros cmd data pc m Hm.
-  exists (mk_frags pc (map (tag 1 3) (chunks (m - 6) cmd))),
-         (mk_frags pc (map (tag 0 2) (chunks (m - 6) data))).
+  exists (mk_frags pc (map (tag 1 3) (chunks (eff_max m - 6) cmd))),
+         (mk_frags pc (map (tag 0 2) (chunks (eff_max m - 6) data))).
   split; [exact (dimse_encode_ok cmd data pc m Hm)|].
+  apply eff_max_legal in Hm.
   split; apply stream_of_chunks; try exact Hm; discriminate.
 Qed.
 Print Assumptions C06_fragmentation.
 
 (* identical whether the data set was supplied as bytes or as a seekable file *)
-Theorem C06_file_equals_bytes : forall (contents : bytes) (m normal last : N), 7 <= m ->
+Theorem C06_file_equals_bytes : forall (contents : bytes) (m normal last : N), legal_max m ->
   Ok (fragment_file contents m normal last) = fragment contents m normal last.
 Proof. exact fragment_file_eq. Qed.
 Print Assumptions C06_file_equals_bytes.
